@@ -205,9 +205,9 @@ def check_play(ctx, cases, origin):
         c["S"] = ms[0]
         n = len(c["parts"])
         top = max(n, c["t"])
-        play = c.get("ahead", "") + "TR(%d) %sPLAY(%s)%s" % (c["t"], c["pre"], ",".join("{" + p + "}" for p in c["parts"]), MARK) + \
+        play = c.get("ahead", "") + "TR(%d) %sPLAY(%s)%s" % (c["t"], c["pre"], ",".join(("{" + p + "}") if p is not None else "" for p in c["parts"]), MARK) + \
                "".join("TR(%d)%s" % (i, MARK) for i in range(top + 1) if i != c["t"])
-        ref = c.get("ahead", "") + "TR(%d) %s" % (c["t"], c["pre"]) + "".join("TR(%d) TIME(%d) %s%s" % (i + 1, c["S"], p, MARK) for i, p in enumerate(c["parts"]))
+        ref = c.get("ahead", "") + "TR(%d) %s" % (c["t"], c["pre"]) + "".join("TR(%d) TIME(%d) %s%s" % (i + 1, c["S"], p, MARK) for i, p in enumerate(c["parts"]) if p is not None)
         todo.append(c)
         srcs2 += [play, ref]
     got, bodies, decs = compile_all(ctx, srcs2)
@@ -258,6 +258,12 @@ def gen_play(rng):
     t = rng.choice([0, 0, 1, 3])
     pre = mmlgen.block(rng, 1, rng.randrange(0, 4), PART_FEATS) + " " if rng.random() < 0.7 else ""
     parts = [mmlgen.block(rng, 1, rng.randrange(1, 7), PART_FEATS).strip() + " " for _ in range(rng.randrange(1, 5))]
+    # an argument slot left EMPTY (`PLAY({a},,{c})`): its track gets nothing, the later parts keep THEIR track numbers
+    # (only interior slots: a trailing empty slot is not claimed)
+    if len(parts) >= 2 and rng.random() < 0.3:
+        for k in range(len(parts) - 1):
+            if rng.random() < 0.5:
+                parts[k] = None
     c = {"t": t, "pre": pre, "parts": parts}
     if rng.random() < 0.4:
         # something was written to some of the part tracks before: they stand ahead of (or behind) the calling track,
